@@ -392,6 +392,8 @@ type c08LH struct {
 
 	queries int64 // number of lookups issued (evidence)
 
+	LastBlock bookkeeping.Block // the block added last (ApplyData carries created ids)
+
 	// Finding, if set, receives violations of classes that have a dedicated known-finding
 	// key and must not stop the exploration of the instance (see Sweep: cross-type lookups).
 	Finding func(key, msg string)
@@ -579,6 +581,7 @@ func (h *c08LH) AddBlock(txs ...*txntest.Txn) (enabled bool, err error) {
 		return true, ve.Violationf("C08:addblock", "AddValidatedBlock(round %d) failed: %v", blk.Round(), err)
 	}
 	h.ref = append(h.ref, nref)
+	h.LastBlock = blk
 	// wait until the block queue syncer wrote the block AND finished notifyCommit (which runs
 	// committedUpTo/scheduleCommit under trackerMu), so that nothing runs concurrently with
 	// the following harness steps.
